@@ -48,7 +48,7 @@ WORDS = [
     ("{\\ E}x", R.U),  # a special character with an empty control sequence (backslash-blank): the E decides
 ]
 SEPS = [" ", "~", ",", "  "]
-ODD = ["\xa0", "\r"]  # NBSP is not a word separator for this code (documented set: space ~ CR LF tab); CR is
+ODD = ["\xa0", "\r", "%"]  # NBSP is not a word separator for this code (documented set: space ~ CR LF tab); CR is
 RAW = ["{", "}", "\\"]
 SIGMA_MAIN = [w for w, _ in WORDS] + SEPS + RAW
 SIGMA = SIGMA_MAIN + ODD
